@@ -1435,11 +1435,11 @@ func run(c *core.Ctx) {
 var Engine = &core.Engine{
 	ID:    "C12",
 	Level: "exploration",
-	Rule: "one sequence per case: relation kind (has many, has many with soft-delete targets, has one, belongs to with value / pointer key column, many-to-many, polymorphic has many, polymorphic has one, many-to-many with two-column string keys; " +
+	Rule: "one sequence per case: relation kind (has many, has many with soft-delete targets, has one, belongs to with value / pointer key column, many-to-many, polymorphic has many, polymorphic has one, many-to-many with two-column string keys; soft delete: has one, polymorphic has many and belongs to with soft-delete targets, many-to-many through a join model with a soft-delete column (SetupJoinTable), where a removed link is a soft-deleted join row; " +
 		"key shapes: belongs to a record with an application-assigned string key, belongs to a record with a two-column (integer,string) key through value key columns, has many through a two-column foreign key, many-to-many with two-column keys on both sides - in these three the keys are drawn from pools in which a part holds its zero value (site 0, slug \"\", locale \"\") and keys share parts) " +
 		"x owner mode (one owner value; two owner values; a slice of 2..3 owner values - []Owner or []*Owner, the latter also passed by value - incl. calls on single elements) x scoping (scoped; Unscoped; mixed) are enumerated from the case index; " +
-		"owners/targets/links are seeded with raw SQL (bystander owners, a decoy polymorphic owner type with equal keys, optionally links of the operated owners); 3..8 random steps Append/Replace/Delete/Clear/Count/Find with targets drawn from brand-new (key from the database), brand-new with a key chosen by the application, a value of a record that an earlier Unscoped step of the sequence removed for good (key still set), existing unlinked, already linked, linked to another owner, duplicate-in-call, and (Delete) a record without a row, in literal forms &T, T, []T, &[]T, []*T; " +
-		"after every step raw-SQL links and target rows, Count/Find (operated and fresh value) and the in-memory relation field are compared with the link-set model; distinct = (kind, key pools, owner mode, slice element kind, scoping, per step: op, unscoped, slice-level, target classes, changed); non-trivial = at least two steps changed the link set",
+		"owners/targets/links are seeded with raw SQL (bystander owners, a decoy polymorphic owner type with equal keys, optionally links of the operated owners; soft-delete kinds: 0..3 leftovers of earlier removals that are not links - soft-deleted target rows whose key column still names an owner, soft-deleted join rows); 3..8 random steps Append/Replace/Delete/Clear/Count/Find (every one of them, Count and Find included, through Association(..) or Association(..).Unscoped() according to the scoping of the case; writes on soft-delete kinds also behind db.Unscoped()) with targets drawn from brand-new (key from the database), brand-new with a key chosen by the application, a value of a record that an earlier Unscoped step of the sequence removed for good (key still set), existing unlinked, already linked, linked to another owner, duplicate-in-call, and (Delete) a record without a row, in literal forms &T, T, []T, &[]T, []*T; " +
+		"after every step raw-SQL links and target rows, Count/Find (operated and fresh value, each through a scoped and through an Unscoped() association handle) and the in-memory relation field are compared with the link-set model; distinct = (kind, key pools, owner mode, slice element kind, scoping, per step: op, unscoped, slice-level, target classes, changed); non-trivial = at least two steps changed the link set",
 	Assumptions: []string{
 		"every association call is made on a fresh db.Model(value).Association(name) (association handles are not reusable)",
 		"has-one / belongs-to Append and Replace get exactly one target (&T) per owner; Append/Replace on a slice of owners get exactly one argument per owner (association.go: ErrInvalidValueOfLength otherwise)",
@@ -1456,6 +1456,10 @@ var Engine = &core.Engine{
 		"Count on a slice of owners is accepted between the number of distinct linked records and the number of links",
 		"Delete() without targets is generated for every kind (multi-column keys too, since the empty multi-column IN renders a row of NULLs) and must change nothing",
 		"many-to-many: Unscoped removes join rows only (targets survive), as scoped",
+		"Association(..).Unscoped() only changes what a removal does to the associated records: Count and Find through an Unscoped() handle must report exactly the links, as through a scoped handle (checked after every step on every kind); Count / Find behind db.Unscoped() (which reads soft-deleted rows on purpose) are not generated",
+		"soft-deleted target rows whose key column still names an owner, and soft-deleted join rows of a soft-delete join model, are not links (that is what an Unscoped resp. any removal leaves behind); they are seeded as well and never passed as arguments",
+		"belongs to a soft-delete target: writes behind db.Unscoped() are not generated (whether the old target is then removed permanently differs between Delete and Replace/Clear and is not fixed by the statement)",
+		"many-to-many through a soft-delete join model: a link is a join row that is not soft-deleted; db.Unscoped() writes may remove join rows permanently or not (not checked); new records with an application-chosen key are not generated for this kind (that class is covered by the plain many-to-many); relinkSoftJoin (c12.go) says whether a target whose join row to the owner is still stored soft-deleted is appended to that owner again",
 		"soft-delete targets: a record deleted through Unscoped association mode must be soft-deleted or gone, with db.Unscoped() gone; whether older soft-deleted rows are purged later is not checked",
 		"belongs to through value key columns: a row whose key columns are all NULL or zero names no target",
 		"only existence of associated records is demanded, not their other columns",
